@@ -129,6 +129,17 @@ func (u *Unit) callStatic(fr *Frame, st *State, fn *ssa.Function, args []Val, po
 		u.lockOp(st, args, pos, false)
 		return nil
 	}
+	if u.checks["constfmt"] && (key == "fmt.Sprintf" || key == "fmt.Errorf" || key == "fmt.Sprint" && false) && len(args) > 0 {
+		// opt-in (flag checks=+constfmt): the format of every fmt.Sprintf / fmt.Errorf
+		// call of the unit is a constant of the program, never computed text
+		goal := False
+		if ft, ok := args[0].(*Term); ok {
+			if _, isLit := u.ctx.StrLitTable()[ft.S]; isLit {
+				goal = True
+			}
+		}
+		u.addObl(st, "format/constant", "the format string of "+key+" is a constant (request text is only ever an operand)", pos, goal)
+	}
 	if key == "fmt.Sprintf" {
 		if v, ok := u.sprintfModel(st, args); ok {
 			return v
@@ -286,6 +297,10 @@ func (u *Unit) checkPre(fr *Frame, st *State, ct *Contract, sig *types.Signature
 func (u *Unit) applyContract(fr *Frame, st *State, ct *Contract, sig *types.Signature, args []Val, hasRecv bool, pos token.Pos, key string) []Val {
 	if ct.Extern {
 		u.externsUsed[key] = true
+	} else if len(ct.Props) == 0 {
+		// a contract on a repository function that carries no property tag is proved
+		// by no check: it is an assumption and is reported as one
+		u.externsUsed["~"+key] = true
 	}
 	hr := hasRecv
 	u.checkPre(fr, st, ct, sig, args, pos, key, &hr)
@@ -935,6 +950,7 @@ func (u *Unit) sprintfModel(st *State, args []Val) (Val, bool) {
 	var pieces []piece
 	lit := ""
 	nargs := 0
+	next := 0
 	for i := 0; i < len(format); i++ {
 		if format[i] != '%' {
 			lit += string(format[i])
@@ -944,6 +960,20 @@ func (u *Unit) sprintfModel(st *State, args []Val) (Val, bool) {
 			return nil, false
 		}
 		i++
+		if format[i] == '[' {
+			// explicit argument index: %[n]d uses operand n, later verbs go on from n+1
+			j := i + 1
+			n := 0
+			for j < len(format) && format[j] >= '0' && format[j] <= '9' {
+				n = n*10 + int(format[j]-'0')
+				j++
+			}
+			if j+1 >= len(format) || format[j] != ']' || n < 1 {
+				return nil, false
+			}
+			next = n - 1
+			i = j + 1
+		}
 		switch format[i] {
 		case '%':
 			lit += "%"
@@ -952,8 +982,11 @@ func (u *Unit) sprintfModel(st *State, args []Val) (Val, bool) {
 				pieces = append(pieces, piece{lit: lit, arg: -1})
 				lit = ""
 			}
-			pieces = append(pieces, piece{arg: nargs, verb: format[i]})
-			nargs++
+			pieces = append(pieces, piece{arg: next, verb: format[i]})
+			next++
+			if next > nargs {
+				nargs = next
+			}
 		default:
 			return nil, false
 		}
